@@ -4,7 +4,10 @@
 set -u
 D="$1"; P="$2"; T="${3:-quick}"; shift 3 2>/dev/null || shift 2
 MV=${MV:-/tmp/mv}
-cd $MV && git checkout -q --detach main 2>/dev/null; git reset -q --hard; rm -f tests/verif_demo.rs
+[ -d "$MV" ] || { git -C /repo worktree add -q --detach "$MV" HEAD; cp /repo/Cargo.lock "$MV"/; }
+cd "$MV" || exit 2
+[ "$(pwd -P)" != /verif ] && [ "$(pwd -P)" != /repo ] || exit 2
+git checkout -q --detach main 2>/dev/null; git reset -q --hard; rm -f tests/verif_demo.rs
 (git apply --3way "$D/patch.diff" 2>/dev/null || git apply "$D/patch.diff") || { echo "patch does not apply"; exit 2; }
 git reset -q
 cd /verif && ./check "$P" --tier "$T" --repo $MV "$@"; RC=$?
